@@ -1,26 +1,43 @@
 """C08 — every balance strategy (range, round-robin, sticky) yields a valid partition assignment."""
 import json, os, re, shutil, subprocess
 
-HOOK_PATCH = "hooks/c08_sticky_iter.patch"
-HOOK_MARK = 'verifPoint("sticky.iter.prepop.members"'
+HOOKS = [  # (patch, marker of its presence in balance_strategy.go)
+    ("hooks/c08_sticky_iter.patch", 'verifPoint("sticky.iter.prepop.members"'),
+    ("hooks/c08_sticky_iter2.patch", 'verifPoint("sticky.revert"'),
+]
 
 
 def hooked_overlay(c, vlib):
-    """The sticky.iter.* call sites (hooks/c08_sticky_iter.patch) tell the harness the map iteration orders of a run.
-    If the tree under test does not contain them yet, the patch is applied to a copy of balance_strategy.go in the
-    build directory and that copy replaces the file through the build overlay (nothing is written to the tree)."""
+    """The sticky.iter.* / sticky.pick call sites tell the harness the map iteration orders of a run, sticky.revert whether the
+    revert branch of balance() ran. Patches whose call sites the tree under test does not contain yet are applied to a copy of
+    balance_strategy.go in the build directory, and that copy replaces the file through the build overlay (nothing is written
+    to the tree)."""
     src = os.path.join(vlib.REPO, "balance_strategy.go")
     text = open(src).read()
-    if HOOK_MARK in text:
-        c.note("sticky iteration hooks present in the tree")
+    missing = [(p, m) for p, m in HOOKS if m not in text]
+    c.revhook = True
+    if not missing:
+        c.note("sticky hooks present in the tree")
         return True
     dst = os.path.join(c.build, "balance_strategy.go")
     shutil.copy(src, dst)
-    p = subprocess.run(["patch", "-s", "-p1", "--no-backup-if-mismatch", dst, os.path.join(vlib.VERIF, HOOK_PATCH)],
-                       stdout=subprocess.PIPE, stderr=subprocess.STDOUT, text=True)
-    if p.returncode != 0 or HOOK_MARK not in open(dst).read():
-        c.break_("build", "hooks/c08_sticky_iter.patch no longer applies to balance_strategy.go (sticky iteration sites changed)", p.stdout)
-        return False
+    c.revhook = True
+    for patch, mark in missing:
+        before = open(dst).read()
+        p = subprocess.run(["patch", "-s", "-p1", "--no-backup-if-mismatch", dst, os.path.join(vlib.VERIF, patch)],
+                           stdout=subprocess.PIPE, stderr=subprocess.STDOUT, text=True)
+        if p.returncode != 0 or mark not in open(dst).read():
+            c.break_("build", "%s no longer applies to balance_strategy.go (the sticky code around its call sites changed)" % patch, p.stdout)
+            if patch.endswith("iter2.patch"):
+                # the revert site changed: go on without observing the revert decision, the monitors may still find a failing input
+                open(dst, "w").write(before)
+                for junk in (dst + ".rej", dst + ".orig"):
+                    if os.path.exists(junk):
+                        os.remove(junk)
+                c.revhook = False
+                continue
+            return False
+        c.assume("%s call sites are not in the tree under test: applied to a build-time copy of balance_strategy.go" % patch)
     orig = c.overlay
 
     def overlay():
@@ -30,8 +47,7 @@ def hooked_overlay(c, vlib):
         json.dump(o, open(path, "w"), indent=1)
         return path
     c.overlay = overlay
-    c.note("sticky iteration hooks applied through the build overlay")
-    c.assume("sticky.iter.* call sites are not in the tree under test: hooks/c08_sticky_iter.patch (8 added verifPoint lines) applied to a build-time copy of balance_strategy.go")
+    c.note("sticky hooks applied through the build overlay: " + ", ".join(p for p, _ in missing))
     return True
 
 
@@ -40,6 +56,8 @@ def run_harness(c, vlib, binary, extra=()):
     args = [binary, "-out", c.build, "-seed", str(c.seed), "-n", str(n)] + list(extra)
     if c.replay:
         args += ["-replay", os.path.abspath(c.replay)]
+    if not getattr(c, "revhook", True):
+        args.append("-norevhook")
     if c.tier != "quick":
         args.append("-thorough")
     rc, out = c.run(args, timeout=2400)
